@@ -2,6 +2,8 @@
 import re
 import ast as A
 import common as C
+import mir
+from mir import op_place
 
 CG = 'zlink-codegen/src/codegen.rs'
 HECK = {'to_snake_case', 'to_pascal_case', 'to_upper_camel_case', 'to_lower_camel_case', 'to_shouty_snake_case', 'to_kebab_case', 'to_title_case', 'to_train_case'}
@@ -143,6 +145,86 @@ def check_pairing(fx, rep):
             rep.check(ok, 'R15.1', key, C.where(body, blk), 'converted %s name is paired with a rename carrying %s (%s)' % (kind.split('::')[-1], want, how),
                       'the %s name is case-converted (%s) but the emitter does not pair it with a rename attribute carrying the IDL spelling %s: '
                       'camelCase / acronym names reach the wire in their converted form' % (kind.split('::')[-1], nm, want))
+    # ---- conversion helpers: a function whose `&str` parameter is case-converted.  Its call sites with a wire-name accessor as argument are
+    # conversions of wire names; the pairing is then: the helper hands back the IDL spelling for the rename (its parameter flows into its
+    # result) and the emitter formats a rename attribute; the decision inside the helper is checked below like any other
+    conv_helpers = {}
+    for body in crate.bodies:
+        if body.in_test or 'codegen' not in body.path or body.kind not in ('Fn', 'AssocFn'):
+            continue
+        for blk, tm in body.iter_terms('call'):
+            if tm['callee'].get('name') in HECK and tm['args']:
+                tr = body.trace(tm['args'][0])
+                if tr.get('kind') == 'arg':
+                    # does the parameter also reach the return value (the IDL spelling handed back)?
+                    _, evs = body.slice_back([0])
+                    back = any(e[0] == 'assign' and any(q.get('l') == tr['l'] for q in mir.rv_places_read(e[3]['rv'])) for e in evs) or \
+                        any(e[0] == 'call' and any((op_place(a) or {}).get('l') == tr['l'] for a in e[2]['args']) for e in evs)
+                    conv_helpers[body.path] = {'param': tr['l'], 'hands_back_spelling': back, 'conv': tm['callee'].get('name')}
+    for body in crate.bodies:
+        if body.in_test or 'codegen' not in body.path:
+            continue
+        ordh = 0
+        for blk, tm in body.iter_terms('call'):
+            d = tm['callee'].get('def') or ''
+            if d not in conv_helpers or not tm['args']:
+                continue
+            h = conv_helpers[d]
+            tr = body.trace(tm['args'][h['param'] - 1]) if len(tm['args']) >= h['param'] else {}
+            acc = (tr['callee'].get('def') or '') if tr.get('kind') == 'call' else ''
+            kind = next((k for k in WIRE_ACCESSORS if k in acc and acc.endswith('::name')), None)
+            if kind is None or not WIRE_ACCESSORS[kind]:
+                continue
+            n_wire += 1
+            ordh += 1
+            f, n = fns.get(body.name, (None, None))
+            fm = [m for m in A.nodes(n['body']) if m.get('k') == 'macro' and m.get('name') in ('format', 'write', 'writeln') and re.search(r'rename\s*=\s*\\?"\{\}', m.get('fmt') or '')] if n else []
+            rep.check(h['hands_back_spelling'] and bool(fm) and kind != 'idl::Error', 'R15.1', '%s|%s|%s|via-%s|%d' % (body.path, h['conv'], kind, d.split('::')[-1], ordh), C.where(body, blk),
+                      'the %s name is converted by %s, which hands the IDL spelling back, and the emitter formats a rename attribute' % (kind.split('::')[-1], d.split('::')[-1]),
+                      'the %s name is case-converted by the helper %s but %s' % (kind.split('::')[-1], d.split('::')[-1],
+                                                                             'the helper does not hand the IDL spelling back' if not h['hands_back_spelling'] else
+                                                                             ('error names must not be converted' if kind == 'idl::Error' else 'the emitter formats no rename attribute')))
+    # ---- the rename decision sees the identifier that is finally emitted (MIR, any function - also an extracted helper):
+    # where a case-converted name is escaped by safe_ident, a comparison of the *unescaped* converted name with the IDL
+    # spelling may decide about the rename only together with the keyword test
+    n_dec = 0
+    for body in crate.bodies:
+        if body.in_test or 'codegen' not in body.path:
+            continue
+        calls = list(body.iter_terms('call'))
+        heck = [(b, tm) for b, tm in calls if tm['callee'].get('name') in HECK]
+        safe = [(b, tm) for b, tm in calls if tm['callee'].get('name') == 'safe_ident' and (tm['callee'].get('def') or '').startswith('codegen')]
+        if not heck or not safe:
+            continue
+        heck_blocks = {b for b, _ in heck}
+
+        def derives(op, want_blocks, stop_names=()):
+            q = op_place(op)
+            if not q:
+                return False
+            _, evs = body.slice_back(list(mir.place_locals_read(q)))
+            hit = any(e[0] == 'call' and e[1] in want_blocks for e in evs)
+            through = any(e[0] == 'call' and e[2]['callee'].get('name') in stop_names for e in evs)
+            return hit, through
+        escaped_conv = any(derives(tm['args'][0], heck_blocks)[0] for b, tm in safe if tm['args'])
+        if not escaped_conv:
+            continue
+        kw = [(b, tm) for b, tm in calls if tm['callee'].get('name') == 'is_rust_keyword']
+        kw_on_conv = any(derives(tm['args'][0], heck_blocks)[0] for b, tm in kw if tm['args'])
+        for b, tm in calls:
+            if tm['callee'].get('name') not in ('ne', 'eq') or len(tm['args']) != 2 or 'PartialEq' not in (tm['callee'].get('trait') or tm['callee'].get('def') or ''):
+                continue
+            sides = [derives(a, heck_blocks, ('safe_ident',)) for a in tm['args']]
+            sides = [x if x else (False, False) for x in sides]
+            conv_unescaped = [hit and not through for hit, through in sides]
+            if not any(conv_unescaped):
+                continue
+            n_dec += 1
+            rep.check(kw_on_conv, 'R15.1', '%s|decision-sees-emitted-identifier|%d' % (body.path, n_dec), C.where(body, b),
+                      'the comparison of the converted name with the IDL spelling is accompanied by the keyword test on the converted name',
+                      'in %s the rename is decided by comparing the case-converted name with the IDL spelling, but the identifier that is emitted is that name after safe_ident '
+                      '(keywords become raw identifiers, `self` / `Self` / `super` / `crate` get a trailing `_`) and neither the escaped identifier nor the keyword test takes part: '
+                      'for a member called `self` no rename is emitted and `self_` reaches the wire' % body.name)
     # error names verbatim
     if 'generate_errors' in fns:
         f, n = fns['generate_errors']
